@@ -426,6 +426,8 @@ func TestVF_C08_MultiNode(t *testing.T) {
 		switch {
 		case len(res.Panics) > 0:
 			msg = "proxy goroutine panicked: " + res.Panics[0]
+		case len(res.Other) > 0:
+			msg = res.Other[0]
 		case len(res.Leftovers) > 0:
 			msg = "after all streams ended: " + res.Leftovers[0]
 		case res.Leak != "":
